@@ -274,7 +274,9 @@ func (self *Compiler) compileExpr(node ast.AnalyzedExpression) {
 
 		fields := make(map[string]*value.Value)
 		for _, field := range node.Fields {
-			fields[field.Key.Ident()] = value.ZeroValue(field.Expression.Type())
+			// only a placeholder cell: every field is assigned below, before the object can be observed
+			// (a zero value does not exist for every type: function and never typed fields made `ZeroValue` panic)
+			fields[field.Key.Ident()] = value.NewValueNull()
 		}
 
 		object := *value.NewValueObject(fields)
